@@ -166,6 +166,12 @@ def observe(res, T, t, cls, mod, model, case, what):
     cmp_mod(c, "clone")
     # in-project context: the module must be parentless to attach; use the clone
     p = Project()
+    # the module's options must survive whatever the enclosing project declares about its own history
+    import random as _r
+    vr = _r.Random(len(raw) * 31 + sum(want_rec))
+    p.based_on_version = vr.choice([(2, 1, 2, 1), (1, 7, 0, 0), (1, 9, 4, 0), (1, 9, 5, 2), (0, 0, 0, 0)])
+    p.sunvox_version = vr.choice([(2, 1, 2, 1), (1, 9, 5, 0), (1, 9, 6, 1), (2, 0, 0, 0)])
+    res.hist("project_versions", f"VERS{p.sunvox_version[:2]}/BVER{p.based_on_version[:3]}")
     p.attach_module(c)
     rawp = p.read()
     recp = _options_record(rawp, t, True)
